@@ -240,11 +240,41 @@ struct Obj {
     else if (fam == LCC) lcc->Reverse(lon0, x, y, lat, lon, g, k);
     else alb->Reverse(lon0, x, y, lat, lon, g, k);
   }
+  // the overloads "without returning the convergence and scale" (documented as the same functions)
+  void fwd5(double lon0, double lat, double lon, double& x, double& y) const {
+    if (fam == PS) ps->Forward(northp, lat, Math::AngDiff(lon0, lon), x, y);
+    else if (fam == LCC) lcc->Forward(lon0, lat, lon, x, y);
+    else alb->Forward(lon0, lat, lon, x, y);
+  }
+  void rev5(double lon0, double x, double y, double& lat, double& lon) const {
+    if (fam == PS) { ps->Reverse(northp, x, y, lat, lon); lon = Math::AngNormalize(lon + Math::AngNormalize(lon0)); }
+    else if (fam == LCC) lcc->Reverse(lon0, x, y, lat, lon);
+    else alb->Reverse(lon0, x, y, lat, lon);
+  }
+  void setscale(double lat, double k) { if (fam == PS) ps->SetScale(lat, k); else if (fam == LCC) lcc->SetScale(lat, k); else alb->SetScale(lat, k); }
+  void setscale(double lat) { if (fam == PS) ps->SetScale(lat); else if (fam == LCC) lcc->SetScale(lat); else alb->SetScale(lat); }   // default argument
   double lat0() const { return fam == PS ? (northp ? 90.0 : -90.0) : fam == LCC ? lcc->OriginLatitude() : alb->OriginLatitude(); }
   double k0() const { return fam == PS ? ps->CentralScale() : fam == LCC ? lcc->CentralScale() : alb->CentralScale(); }
   double a() const { return fam == PS ? ps->EquatorialRadius() : fam == LCC ? lcc->EquatorialRadius() : alb->EquatorialRadius(); }
   double f() const { return fam == PS ? ps->Flattening() : fam == LCC ? lcc->Flattening() : alb->Flattening(); }
 };
+static double kval(int c);
+static double latcode(long long p, int d);
+static string call_setscale(Obj& o, double lat, int kc);
+// Everything the public interface shows of an object, as bit patterns: the inspectors, Forward at two points (one per
+// hemisphere, different central meridians) and Reverse at two points of the plane.
+static vector<uint64_t> observable(const Obj& o) {
+  vector<uint64_t> v;
+  auto put = [&](double d) { v.push_back(vt::bits(d)); };
+  put(o.a()); put(o.f()); put(o.k0()); put(o.lat0());
+  double x, y, g, k, la, lo;
+  o.fwd(0, 33, 44, x, y, g, k); put(x); put(y); put(g); put(k);
+  o.fwd(7, -20, -100, x, y, g, k); put(x); put(y); put(g); put(k);
+  const double a = o.a();
+  o.rev(0, 0.3 * a, -0.4 * a, la, lo, g, k); put(la); put(lo); put(g); put(k);
+  o.rev(-50, -0.05 * a, 0.6 * a, la, lo, g, k); put(la); put(lo); put(g); put(k);
+  return v;
+}
 // ct: 1 one parallel (degrees), 2 two parallels (degrees), 3 sines and cosines
 static Obj make(int fam, int ct, const Fam& el, double p1, double p2, double s1, double c1, double s2, double c2, double k1, bool northp = true) {
   Obj o; o.fam = fam; o.northp = northp;
@@ -308,10 +338,23 @@ static void pt_fields(Rec& r, const Obj& o, const Oracle& orc, const Fam& el, co
   r.i("rt", relq(E.dist(p.lat, p.lon, lat2, lon2) / E.a));
   r.i("rtg", relq(fabsl(remainderl((LD)g2 - g, 360.0L)) * DEGL * c));
   r.i("rtk", relq(fabsl((LD)k2 - k) / kk * c));
+  r.i("rtk0", relq(fabsl((LD)k2 - k) / kk));                  // the same without the weight cos(lat) (used where the weight vanishes)
+  // --- the overloads without gamma, k: the same x, y / lat, lon bit for bit
+  { double xo = 0, yo = 0, lao = 0, loo = 0; o.fwd5(p.lon0, p.lat, p.lon, xo, yo); o.rev5(p.lon0, x, y, lao, loo);
+    r.b("ovf", vt::bits(xo) == vt::bits(x) && vt::bits(yo) == vt::bits(y)).b("ovr", vt::bits(lao) == vt::bits(lat2) && vt::bits(loo) == vt::bits(lon2)); }
   // --- Forward o Reverse on the image point
   double x3, y3, g3, k3;
   o.fwd(p.lon0, lat2, lon2, x3, y3, g3, k3);
   r.i("tr", relq(truedist(o.fam, (LD)x3 - x, (LD)y3 - y, k, g) / E.a));
+  // gamma, k returned by Reverse against gamma, k returned by Forward for the point that Reverse returned (at a pole the
+  // longitude is the one Reverse chose): weighted by cos(lat2), and unweighted
+  { LD s2, c2; sincosdL(lat2, s2, c2); LD k3a = fabsl((LD)k3);
+    LD dg = fabsl(remainderl((LD)g3 - g2, 360.0L)) * DEGL, dk = fabsl((LD)k3 - k2) / k3a;
+    r.i("cosq2", vt::q1(c2, 1e-9L)).i("lat2q", udeg(lat2)).i("kq3", vt::q1(log10l(k3a), 1e-6L));
+    r.i("trg", relq(dg * c2)).i("trk", relq(dk * c2)).i("trg0", relq(dg)).i("trk0", relq(dk));
+    r.i("gul3", relq(ldexpl(fmaxl(fabsl((LD)g3), fabsl((LD)g2)), -52) * DEGL));
+    // CentralScale is "the scale on the latitude of origin" / "the scale at the pole": Reverse landing exactly on it
+    r.i("rk0", vt::bits(lat2) == vt::bits(o.lat0()) ? relq(fabsl((LD)k2 - o.k0()) / o.k0()) : -1); }
   // --- the closed form
   LD X, Y, G, K;
   bool ev = orc.fwd(p.lat, dlam, X, Y, G, K);
@@ -517,7 +560,7 @@ static void lim_record(vt::Rng& g) {
   double e1 = 0, dl = Math::AngDiff(lon0, lon, e1); LD dlam = (LD)dl + e1;
   LD s, c; sincosdL(lat, s, c);
   r.i("dlq", udeg(dlam)).i("cosq", vt::q1(c, 1e-9L)).i("cnd", relq(ldexpl(1.0L, -52) / c));
-  double x, y, gm, k; long long d = -1, dk = -1, dg = -1, dr = -1; bool fin = false; LD kk = 1;
+  double x, y, gm, k; long long d = -1, dk = -1, dg = -1, dr = -1, drk = -1, drk0 = -1, drg = -1; bool fin = false; LD kk = 1;
   try {
     if (kind == 0) {
       LambertConformalConic L(el.a, el.f, north ? 90.0 : -90.0, k0); PolarStereographic P(el.a, el.f, k0);
@@ -527,6 +570,8 @@ static void lim_record(vt::Rng& g) {
       double la, lo, la2, lo2; L.Reverse(lon0, x2, y2, la, lo, gm, k); P.Reverse(north, x2, y2, la2, lo2, g2, k2);
       lo2 = Math::AngNormalize(lo2 + Math::AngNormalize(lon0));
       dr = relq(E.dist(la2, lo2, la, lo) / E.a);
+      // gamma, k returned by the two Reverse calls for the same point of the plane
+      drk0 = relq(fabsl((LD)k - k2) / k2); drk = relq(fabsl((LD)k - k2) / k2 * c); drg = relq(fabsl(remainderl((LD)gm - g2, 360.0L)) * DEGL * c);
     } else if (kind == 1) {
       LambertConformalConic L(el.a, el.f, 0.0, k0); Ellipsoid EL(el.a, el.f);
       L.Forward(lon0, lat, lon, x, y, gm, k); fin = fin4(x, y, gm, k); kk = k;
@@ -559,7 +604,7 @@ static void lim_record(vt::Rng& g) {
   } catch (const std::exception&) { fin = false; }
   LD amp = ldexpl(fmaxl(fabsl((LD)x), fabsl((LD)y)), -52) * (kind >= 2 ? fmaxl(fabsl(kk), 1 / fabsl(kk)) : 1 / fabsl(kk));
   r.b("fin", fin).i("amp", relq(amp / E.a)).i("gul", relq(ldexpl(fabsl((LD)gm), -52) * DEGL * c));
-  r.i("d", d).i("dk", dk).i("dg", dg).i("dr", dr);
+  r.i("d", d).i("dk", dk).i("dg", dg).i("dr", dr).i("drk", drk).i("drk0", drk0).i("drg", drg);
   r.str("in", hexin({el.a, el.f, k0, lon0, lat, lon}));
   r.emit();
 }
@@ -574,6 +619,16 @@ static void ss_record(vt::Rng& g) {
   Obj o; string cres = guarded([&] { o = make(s); });
   if (cres != "ok") { r.str("out", "ctor-throw"); r.emit(); return; }
   double lat0 = o.lat0(), k0old = o.k0();
+  // first a call from the classes the headers declare inadmissible (a pole, a latitude outside [-90, 90] or NaN, a scale that is
+  // not positive), as lattice codes <<p, d>>, kc so that the specification computes the outcome for this object
+  {
+    static const long long BAD[10][3] = {{-90, 0, 2}, {90, 0, 2}, {91, 0, 2}, {-91, 0, 2}, {999, 0, 2}, {30, 0, 0}, {30, 0, -1}, {30, 0, 8}, {30, 0, 9}, {90, 1, 3}};
+    const long long* bc = BAD[g.range(0, 9)];
+    vector<uint64_t> before = observable(o);
+    string bres = call_setscale(o, latcode(bc[0], int(bc[1])), int(bc[2]));
+    vector<uint64_t> after = observable(o);
+    r.li("bcall", {bc[0], bc[1], bc[2]}).str("bres", bres).b("bunch", before == after);
+  }
   string sres = guarded([&] { if (fam == PS) o.ps->SetScale(lats, ks); else if (fam == LCC) o.lcc->SetScale(lats, ks); else o.alb->SetScale(lats, ks); });
   r.str("out", sres);
   if (sres == "ok") {
@@ -613,7 +668,7 @@ static void sg_records(vt::Rng& g) {
   const double a = Constants::WGS84_a(), f = Constants::WGS84_f();
   for (int w = 0; w < 5; ++w) {
     static const char* WN[] = {"UPS", "Mercator", "CylindricalEqualArea", "AzimuthalEqualAreaNorth", "AzimuthalEqualAreaSouth"};
-    bool same = true, insp = true;
+    bool same = true, insp = true, ovl = true;
     for (int j = 0; j < 8 && same; ++j) {
       double lat = j == 0 ? 90 : j == 1 ? -90 : j == 2 ? 0 : g.uni(-90, 90), lon = g.uni(-180, 180), lon0 = g.uni(-180, 180);
       double x, y, gm, k, x1, y1, g1, k1, la, lo, la1, lo1;
@@ -621,11 +676,13 @@ static void sg_records(vt::Rng& g) {
         PolarStereographic P(a, f, Constants::UPS_k0()); const PolarStereographic& S = PolarStereographic::UPS();
         bool np = g.coin(); S.Forward(np, lat, lon, x, y, gm, k); P.Forward(np, lat, lon, x1, y1, g1, k1); same = same && same4(x, y, gm, k, x1, y1, g1, k1);
         S.Reverse(np, x, y, la, lo, gm, k); P.Reverse(np, x, y, la1, lo1, g1, k1); same = same && same4(la, lo, gm, k, la1, lo1, g1, k1);
+        { double xo, yo, lao, loo; S.Forward(np, lat, lon, xo, yo); S.Reverse(np, x, y, lao, loo); ovl = ovl && same4(xo, yo, lao, loo, x, y, la, lo); }
         insp = vt::bits(S.EquatorialRadius()) == vt::bits(a) && vt::bits(S.Flattening()) == vt::bits(f) && vt::bits(S.CentralScale()) == vt::bits(0.994);
       } else if (w == 1) {
         LambertConformalConic P(a, f, 0.0, 1.0); const LambertConformalConic& S = LambertConformalConic::Mercator();
         S.Forward(lon0, lat, lon, x, y, gm, k); P.Forward(lon0, lat, lon, x1, y1, g1, k1); same = same && same4(x, y, gm, k, x1, y1, g1, k1);
         S.Reverse(lon0, x, y, la, lo, gm, k); P.Reverse(lon0, x, y, la1, lo1, g1, k1); same = same && same4(la, lo, gm, k, la1, lo1, g1, k1);
+        { double xo, yo, lao, loo; S.Forward(lon0, lat, lon, xo, yo); S.Reverse(lon0, x, y, lao, loo); ovl = ovl && same4(xo, yo, lao, loo, x, y, la, lo); }
         insp = vt::bits(S.EquatorialRadius()) == vt::bits(a) && vt::bits(S.Flattening()) == vt::bits(f) && S.OriginLatitude() == 0 && S.CentralScale() == 1;
       } else {
         double sl = w == 2 ? 0.0 : w == 3 ? 90.0 : -90.0;
@@ -633,10 +690,11 @@ static void sg_records(vt::Rng& g) {
         const AlbersEqualArea& S = w == 2 ? AlbersEqualArea::CylindricalEqualArea() : w == 3 ? AlbersEqualArea::AzimuthalEqualAreaNorth() : AlbersEqualArea::AzimuthalEqualAreaSouth();
         S.Forward(lon0, lat, lon, x, y, gm, k); P.Forward(lon0, lat, lon, x1, y1, g1, k1); same = same && same4(x, y, gm, k, x1, y1, g1, k1);
         S.Reverse(lon0, x, y, la, lo, gm, k); P.Reverse(lon0, x, y, la1, lo1, g1, k1); same = same && same4(la, lo, gm, k, la1, lo1, g1, k1);
+        { double xo, yo, lao, loo; S.Forward(lon0, lat, lon, xo, yo); S.Reverse(lon0, x, y, lao, loo); ovl = ovl && same4(xo, yo, lao, loo, x, y, la, lo); }
         insp = vt::bits(S.EquatorialRadius()) == vt::bits(a) && vt::bits(S.Flattening()) == vt::bits(f) && S.OriginLatitude() == sl && S.CentralScale() == 1;
       }
     }
-    Rec r; r.str("e", "sg").str("which", WN[w]).b("same", same).b("insp", insp); r.emit();
+    Rec r; r.str("e", "sg").str("which", WN[w]).b("same", same).b("insp", insp).b("ovl", ovl); r.emit();
   }
 }
 
@@ -675,18 +733,24 @@ static void do_record(uint64_t seed, long long nobj) {
 }
 
 // ------------------------------------------------------------------ replay of TLC vectors
-static double kval(int c) { switch (c) { case 1: return 0.5; case 2: return 1; case 3: return 2; case 0: return 0; case -1: return -1; case 8: return INFINITY; default: return Math::NaN(); } }
+static double kval(int c) { switch (c) { case 1: return 0.5; case 2: return 1; case 3: return 2; case 4: return 0.994; case 7: return 1; case 0: return 0; case -1: return -1; case 8: return INFINITY; default: return Math::NaN(); } }
 static double fval(int c) { switch (c) { case 0: return 0; case 1: return 1 / 298.257223563; case 2: return -1.0 / 150; case 3: return 0.5; case 5: return 1; case 6: return 1.5; case 7: return -INFINITY; case 8: return INFINITY; default: return Math::NaN(); } }
 static double aval(int c) { switch (c) { case 0: return 6378137; case 1: return 1; case 5: return 0; case 6: return -1; case 8: return INFINITY; default: return Math::NaN(); } }
 static void sccode(int c, int ct, double& s, double& cs) {
   if (c >= -90 && c <= 90) Math::sincosd(double(c), s, cs);
   else switch (c) {
     case 100: s = 0; cs = 0; break; case 101: s = 0.5; cs = -0.5; break; case 102: s = 1.5; cs = 0; break;
-    case 103: s = 0; cs = 1.5; break; case 104: s = 0.3; cs = 0.4; break; default: s = Math::NaN(); cs = 1; break;
+    case 103: s = 0; cs = 1.5; break; case 104: s = 0.3; cs = 0.4; break;
+    case 106: s = 0.5; cs = Math::NaN(); break; case 107: s = Math::NaN(); cs = Math::NaN(); break;
+    case 108: s = INFINITY; cs = 0.5; break; case 109: s = 0.5; cs = INFINITY; break;
+    case 110: s = -1.5; cs = 0; break; case 111: s = 0.5; cs = -INFINITY; break;
+    default: s = Math::NaN(); cs = 1; break;      // 105
   }
   if (ct == 4 && ((c >= -90 && c <= 90) || c == 104)) { s *= 0.5; cs *= 0.5; }
 }
 static long long I(const string& t) { return atoll(t.c_str()); }
+// a latitude of the lattice: Eps number <<p, d>> in degrees; p = 999 -> NaN, 998 -> +inf, -998 -> -inf
+static double latcode(long long p, int d) { return p == 999 ? Math::NaN() : p == 998 ? INFINITY : p == -998 ? -INFINITY : vt::eps(p, d); }
 
 static void do_ctor(const vector<string>& t) {
   string fam = t[1]; int ct = int(I(t[2])); long long p1 = I(t[3]), p2 = I(t[5]); int d1 = int(I(t[4])), d2 = int(I(t[6]));
@@ -695,8 +759,12 @@ static void do_ctor(const vector<string>& t) {
   int f = fam == "ps" ? PS : fam == "lcc" ? LCC : ALB;
   double s1 = 0, c1 = 1, s2 = 0, c2 = 1;
   if (ct >= 3) { sccode(int(p1), ct, s1, c1); sccode(int(p2), ct, s2, c2); }
-  Obj o; string res = guarded([&] { o = make(f, ct >= 3 ? 3 : ct, el, vt::eps(p1, d1), vt::eps(p2, d2), s1, c1, s2, c2, k); });
+  Obj o; string res = guarded([&] { o = make(f, ct >= 3 ? 3 : ct, el, latcode(p1, d1), latcode(p2, d2), s1, c1, s2, c2, k); });
   Rec r; r.str("e", "ctor").str("fam", fam).i("ct", ct).li("P1", {p1, d1}).li("P2", {p2, d2}).i("kc", kc).i("fc", fc).i("ac", ac).str("out", res);
+  // known-finding input class (from the inputs only): LCC, two distinct parallels in degrees, one of them within 1e-12 degree of a
+  // pole (not at it), f >= 1/2
+  { double l1 = latcode(p1, d1), l2 = latcode(p2, d2), m = fmin(90 - fabs(l1), 90 - fabs(l2));
+    r.str("kf", f == LCC && ct == 2 && el.f >= 0.5 && el.f < 1 && l1 != l2 && m > 0 && m <= 1e-12 ? "lcc-2par-within-1e-12deg-of-pole-f-ge-half" : "none"); }
   bool fin = false, insp = false;
   if (res == "ok") {
     double x, y, g, kk; o.fwd(0, 10, 20, x, y, g, kk); fin = fin4(x, y, g, kk) && kk > 0;
@@ -705,21 +773,68 @@ static void do_ctor(const vector<string>& t) {
   r.b("fin", fin).b("insp", insp); r.emit();
 }
 
-static void do_sets(const vector<string>& t) {
-  string fam = t[1], pol = t[2]; long long p = I(t[3]); int d = int(I(t[4])), kc = int(I(t[5]));
-  int f = fam == "ps" ? PS : fam == "lcc" ? LCC : ALB;
+// The objects that SetScale is called on in the lattice parts: WGS84, polar north / polar south / stdlat = 40,
+// built with the scale kval(k0c) (0.5 or 0.994: values that no SetScale call of the lattice writes).
+static Obj sets_object(int f, const string& pol, int k0c) {
   Fam el{6378137, 1 / 298.257223563};
   double sl = pol == "np" ? 90 : pol == "sp" ? -90 : 40;
-  Obj o = make(f, 1, el, sl, sl, 0, 1, 0, 1, 1.0, true);
-  double lat = vt::eps(p, d), k = kval(kc);
-  double x0, y0, g0, k0; o.fwd(0, 33, 44, x0, y0, g0, k0);
-  string res = guarded([&] { if (f == PS) o.ps->SetScale(lat, k); else if (f == LCC) o.lcc->SetScale(lat, k); else o.alb->SetScale(lat, k); });
-  double x1, y1, g1, k1; o.fwd(0, 33, 44, x1, y1, g1, k1);
-  Rec r; r.str("e", "sets").str("fam", fam).str("pol", pol).li("lat", {p, d}).i("kc", kc).str("out", res);
-  r.b("unch", same4(x0, y0, g0, k0, x1, y1, g1, k1));
-  long long ksr = -1;
-  if (res == "ok") { double x, y, g, kk; if (f == PS) o.ps->Forward(true, lat, 0, x, y, g, kk); else o.fwd(0, lat, 0, x, y, g, kk); ksr = relq(fabsl((LD)kk - k) / k); }
-  r.i("ksr", ksr); r.emit();
+  return make(f, 1, el, sl, sl, 0, 1, 0, 1, kval(k0c), true);
+}
+// one call; kc = 7: the scale argument is omitted (default argument)
+static string call_setscale(Obj& o, double lat, int kc) {
+  return guarded([&] { if (kc == 7) o.setscale(lat); else o.setscale(lat, kval(kc)); });
+}
+// relative error of the scale at lat against k (PS: SetScale refers to northp = true)
+static long long scale_resid(const Obj& o, double lat, double k) {
+  double x, y, g, kk; if (o.fam == PS) o.ps->Forward(true, lat, 0, x, y, g, kk); else o.fwd(0, lat, 0, x, y, g, kk);
+  return relq(fabsl((LD)kk - k) / k);
+}
+
+// CentralScale is "the scale on the latitude of origin" / "at the pole" - also after SetScale: relative difference between
+// k returned by Forward at OriginLatitude and CentralScale()
+static long long central_resid(const Obj& o) {
+  double x, y, g, kk; if (o.fam == PS) o.ps->Forward(true, 90, 0, x, y, g, kk); else o.fwd(0, o.lat0(), 0, x, y, g, kk);
+  return relq(fabsl((LD)kk - o.k0()) / o.k0());
+}
+
+static void do_sets(const vector<string>& t) {
+  string fam = t[1], pol = t[2]; long long p = I(t[3]); int d = int(I(t[4])), kc = int(I(t[5])), k0c = int(I(t[6]));
+  int f = fam == "ps" ? PS : fam == "lcc" ? LCC : ALB;
+  Obj o = sets_object(f, pol, k0c);
+  double lat = latcode(p, d);
+  vector<uint64_t> before = observable(o);
+  string res = call_setscale(o, lat, kc);
+  vector<uint64_t> after = observable(o);
+  Rec r; r.str("e", "sets").str("fam", fam).str("pol", pol).li("lat", {p, d}).i("kc", kc).i("k0c", k0c).str("out", res);
+  r.b("unch", before == after).b("lat0b", before[3] == after[3]);
+  r.i("ksr", res == "ok" ? scale_resid(o, lat, kval(kc)) : -1).i("kcr", central_resid(o)); r.emit();
+}
+
+// A path of SetScale calls on one object: seq fam pol k0c mode n (p d kc ep ed ekc) x n.  After every call: the outcome, whether
+// the observable state is bit for bit what it was before the call, whether the origin latitude is, and the residual of
+// the scale the MODEL says is in force (ep ed ekc; 0 0 0 = the constructor's: compared bit for bit with a fresh object).
+static void do_seq(const vector<string>& t) {
+  string fam = t[1], pol = t[2]; int k0c = int(I(t[3])), mode = int(I(t[4])), n = int(I(t[5]));
+  int f = fam == "ps" ? PS : fam == "lcc" ? LCC : ALB;
+  Obj o = sets_object(f, pol, k0c);
+  const vector<uint64_t> fresh = observable(o);
+  vector<long long> outs, unch, lat0b, efr, kcr;
+  string calls = "[", effs = "[";
+  for (int j = 0; j < n; ++j) {
+    long long p = I(t[6 + 6 * j]); int d = int(I(t[7 + 6 * j])), kc = int(I(t[8 + 6 * j]));
+    long long ep = I(t[9 + 6 * j]); int ed = int(I(t[10 + 6 * j])), ekc = int(I(t[11 + 6 * j]));
+    vector<uint64_t> before = observable(o);
+    string res = call_setscale(o, latcode(p, d), kc);
+    vector<uint64_t> after = observable(o);
+    outs.push_back(res == "ok" ? 1 : res == "throw" ? 0 : 2);
+    unch.push_back(before == after ? 1 : 0); lat0b.push_back(before[3] == after[3] ? 1 : 0);
+    efr.push_back(ekc == 0 ? (after == fresh ? 0 : 2000000001LL) : scale_resid(o, latcode(ep, ed), kval(ekc)));
+    kcr.push_back(central_resid(o));
+    calls += string(j ? "," : "") + "[" + to_string(p) + "," + to_string(d) + "," + to_string(kc) + "]";
+    effs += string(j ? "," : "") + "[" + to_string(ep) + "," + to_string(ed) + "," + to_string(ekc) + "]";
+  }
+  Rec r; r.str("e", "seq").str("fam", fam).str("pol", pol).i("k0c", k0c).i("mode", mode).raw("calls", calls + "]").raw("eff", effs + "]");
+  r.li("out", outs).li("unch", unch).li("lat0b", lat0b).li("efr", efr).li("kcr", kcr); r.emit();
 }
 
 static Obj make_desc(const string& fam, int ct, long long p1, long long p2, int kc, const Fam& el) {
@@ -738,12 +853,15 @@ static void do_sym(const vector<string>& t) {
   for (int fi : FIS) {
     const Fam& el = family()[fi]; EllL E(el);
     Rec r; r.str("e", "sym").str("fam", fam).i("s", s).li("g", g).i("kc", kc).li("bin", bin).li("tin", tin).li("rep", rep).i("fi", fi);
-    double x, y, gm, k, x2, y2, g2, k2; bool ok = true;
+    double x, y, gm, k, x2, y2, g2, k2, la = 0, lo = 0, gr = 0, kr = 0; bool ok = true;
     string res = guarded([&] {
       Obj a = make_desc(fam, fam == "ps" ? 0 : (bin[0] == bin[1] ? 1 : 2), fam == "ps" ? 90 * s : bin[0], fam == "ps" ? 90 * s : bin[1], kc, el);
       Obj b = make_desc(fam, fam == "ps" ? 0 : (tin[0] == tin[1] ? 1 : 2), fam == "ps" ? 90 * tin[2] : tin[0], fam == "ps" ? 90 * tin[2] : tin[1], kc, el);
       a.fwd(double(bin[4]), double(bin[2]), double(bin[3]), x, y, gm, k);
       b.fwd(double(tin[5]), double(tin[3]), double(tin[4]), x2, y2, g2, k2);
+      // the inverse mapping under the same group element: the transformed object's Reverse of the transformed image (a signed
+      // permutation of x, y: exact) is the transformed point, with the transformed gamma and the same k
+      b.rev(double(tin[5]), double(rep[0] * x + rep[1] * y), double(rep[2] * x + rep[3] * y), la, lo, gr, kr);
     });
     ok = res == "ok" && fin4(x, y, gm, k) && fin4(x2, y2, g2, k2);
     LD xp = rep[0] * (LD)x + rep[1] * (LD)y, yp = rep[2] * (LD)x + rep[3] * (LD)y, gp = rep[4] * (LD)gm + 90.0L * rep[5];
@@ -756,6 +874,11 @@ static void do_sym(const vector<string>& t) {
     r.i("dkk", ok ? relq(fabsl((LD)k2 - k) / kk * cl) : -1);
     r.i("amp", ok ? relq(ldexpl(fmaxl(fabsl((LD)x2), fabsl((LD)y2)), -52) * (f == ALB ? fmaxl(kk, 1 / kk) : 1 / kk) / E.a) : 0);
     r.i("cnd", relq(ldexpl(1.0L, -52) / cl));
+    bool rok = ok && fin4(la, lo, gr, kr);
+    r.b("rfin", rok);
+    r.i("rd", rok ? relq(E.dist(double(tin[3]), double(tin[4]), la, lo) / E.a) : -1);
+    r.i("rdg", rok ? relq(fabsl(remainderl((LD)gr - gp, 360.0L)) * DEGL * cl) : -1);
+    r.i("rdk", rok ? relq(fabsl((LD)kr - k) / fabsl((LD)k) * cl) : -1);
     r.emit();
   }
 }
@@ -765,15 +888,26 @@ static void do_anc(const vector<string>& t) {
   string fam = t[1]; int ct = int(I(t[2])); long long p1 = I(t[3]), p2 = I(t[4]); int kc = int(I(t[5])), fi = int(I(t[6]));
   long long lat = I(t[7]), lon0 = I(t[8]), dl = I(t[9]); string qty = t[10]; long long num = I(t[11]), den = I(t[12]); string unit = t[13];
   const Fam& el = family()[fi]; EllL E(el);
-  double x = 0, y = 0, g = 0, k = 0;
-  string res = guarded([&] { Obj o = make_desc(fam, ct, p1, p2, kc, el); o.fwd(double(lon0), double(lat), double(lon0 + dl), x, y, g, k); });
+  double x = 0, y = 0, g = 0, k = 0, la2 = 0, lo2 = 0, g2 = 0, k2 = 0; bool ovl = false;
+  string res = guarded([&] {
+    Obj o = make_desc(fam, ct, p1, p2, kc, el); o.fwd(double(lon0), double(lat), double(lon0 + dl), x, y, g, k);
+    o.rev(double(lon0), x, y, la2, lo2, g2, k2);                 // Reverse of the image: its k and gamma are held to the same anchor
+    double xo, yo, lao, loo; o.fwd5(double(lon0), double(lat), double(lon0 + dl), xo, yo); o.rev5(double(lon0), x, y, lao, loo);
+    ovl = vt::bits(xo) == vt::bits(x) && vt::bits(yo) == vt::bits(y) && vt::bits(lao) == vt::bits(la2) && vt::bits(loo) == vt::bits(lo2);
+  });
   LD u = unit == "a" ? E.a : unit == "arc" ? E.a * DEGL : 1.0L;
   LD want = (LD)num / (LD)den, val = 0, resid = 0;
+  long long rres = -1;
+  if (qty == "k") rres = relq(fabsl((LD)k2 - want)); else if (qty == "kk") rres = relq(fabsl((LD)k2 * k2 - want));
+  else if (qty == "g") rres = relq(fabsl(remainderl((LD)g2 - want, 360.0L)) * DEGL);
   if (qty == "x") val = x / u; else if (qty == "y") val = y / u; else if (qty == "xx") val = ((LD)x / E.a) * ((LD)x / E.a);
   else if (qty == "k") val = k; else if (qty == "kk") val = (LD)k * k; else val = g;
   resid = qty == "g" ? fabsl(remainderl(val - want, 360.0L)) * DEGL : fabsl(val - want);
   Rec r; r.str("e", "anc").str("fam", fam).i("ct", ct).i("p1", p1).i("p2", p2).i("kc", kc).i("fi", fi).i("lat", lat).i("lon0", lon0).i("dl", dl)
     .str("qty", qty).i("num", num).i("den", den).str("unit", unit).str("out", res).b("fin", fin4(x, y, g, k)).i("res", relq(resid));
+  r.b("rfin", fin4(la2, lo2, g2, k2)).i("rres", rres).b("ovl", ovl);
+  // known-finding input class (the same function of the inputs as for the random points)
+  { Spec sp; sp.fam = fam == "ps" ? PS : fam == "lcc" ? LCC : ALB; sp.P1 = par_deg(double(p1)); sp.P2 = par_deg(double(ct == 1 ? p1 : p2)); r.str("kf", kfclass(sp, double(lat))); }
   r.emit();
 }
 
@@ -784,7 +918,7 @@ static void do_eqv(const vector<string>& t) {
   static const double PTS[3][3] = {{17, 25, 3}, {-60, 100, 0}, {80, -140, 10}};
   for (int fi : FIS) {
     const Fam& el = family()[fi]; EllL E(el);
-    LD wd = 0, wk = 0, wg = 0, wa = 0, wc = 0; long long dl0 = -1, dk0 = -1; bool fin = true;
+    LD wd = 0, wk = 0, wg = 0, wa = 0, wc = 0, wr = 0, wrk = 0, wrg = 0; long long dl0 = -1, dk0 = -1; bool fin = true;
     string res = guarded([&] {
       Obj A = make_desc(fa, cta, a1, a2, kc, el), B = make_desc(fb, ctb, b1, b2, kc, el);
       int f = A.fam;
@@ -797,10 +931,16 @@ static void do_eqv(const vector<string>& t) {
         wk = fmaxl(wk, fabsl((LD)k2 - k) / kk * cl); wg = fmaxl(wg, fabsl(remainderl((LD)g2 - g, 360.0L)) * DEGL * cl);
         wa = fmaxl(wa, ldexpl(fmaxl(fabsl((LD)x), fabsl((LD)y)), -52) * (f == ALB ? fmaxl(kk, 1 / kk) : 1 / kk) / E.a);
         wc = fmaxl(wc, ldexpl(1.0L, -52) / cl);
+        // Reverse of the same point of the plane by the two objects: position, gamma, k
+        double la, lo, ga, ka, lb, lob, gb, kb; A.rev(P[2], x, y, la, lo, ga, ka); B.rev(P[2], x, y, lb, lob, gb, kb);
+        fin = fin && fin4(la, lo, ga, ka) && fin4(lb, lob, gb, kb);
+        wr = fmaxl(wr, E.dist(la, lo, lb, lob) / E.a);
+        wrk = fmaxl(wrk, fabsl((LD)kb - ka) / fabsl((LD)ka) * cl); wrg = fmaxl(wrg, fabsl(remainderl((LD)gb - ga, 360.0L)) * DEGL * cl);
       }
     });
     Rec r; r.str("e", "eqv").str("fa", fa).i("cta", cta).i("a1", a1).i("a2", a2).str("fb", fb).i("ctb", ctb).i("b1", b1).i("b2", b2).i("kc", kc).i("fi", fi);
     r.str("out", res).b("fin", fin && res == "ok").i("d", relq(wd)).i("dk", relq(wk)).i("dg", relq(wg)).i("dl0", dl0).i("dk0", dk0).i("amp", relq(wa)).i("cnd", relq(wc));
+    r.i("dr", relq(wr)).i("drk", relq(wrk)).i("drg", relq(wrg));
     r.emit();
   }
 }
@@ -812,7 +952,7 @@ int main(int argc, char** argv) {
     while (getline(cin, line)) {
       auto t = vt::split(line); if (t.empty()) continue;
       if (t[0] == "ctor") do_ctor(t); else if (t[0] == "sets") do_sets(t); else if (t[0] == "sym") do_sym(t);
-      else if (t[0] == "anc") do_anc(t); else if (t[0] == "eqv") do_eqv(t);
+      else if (t[0] == "anc") do_anc(t); else if (t[0] == "eqv") do_eqv(t); else if (t[0] == "seq") do_seq(t);
     }
     return 0;
   }
